@@ -20,6 +20,23 @@ type Case struct {
 	Cfg  vmx.Cfg `json:"cfg"`
 	Src  string  `json:"src"`
 	Kind string  `json:"kind,omitempty"`
+	// Custom: custom dice syntaxes the host registered (regular expressions, index+1 into customPatterns, in this order):
+	// whether they match, match nothing, or could match the empty string, the compiled code stays well-formed
+	Custom []int `json:"custom,omitempty"`
+}
+
+var customPatterns = []string{`E(\d+)`, `(E(\d+))?`, `Q*`, `(?:#\d+)?`, `\s*`, `(\d+)!`, `x(\d*)`, `[gh]\d`, `\)\s*`, `[,;]\s*\S?`, `(?:)`, `\d+\.\d+`}
+
+func newVM(c Case) *ds.Context {
+	vm := c.Cfg.NewVM()
+	for _, k := range c.Custom {
+		if k >= 1 && k <= len(customPatterns) {
+			_ = vm.RegCustomDice(customPatterns[k-1], func(ctx *ds.Context, groups []string, payload any) (*ds.VMValue, string, error) {
+				return ds.NewIntVal(7), "", nil
+			})
+		}
+	}
+	return vm
 }
 
 func listing(code []ds.VerifOp) string {
@@ -47,7 +64,7 @@ func listing(code []ds.VerifOp) string {
 
 // checkCase parses (never executes) and verifies the compiled program and every nested body.
 func checkCase(c Case, s *rt.Section) (*rt.Failure, *bcverify.Stats, bool) {
-	vm := c.Cfg.NewVM()
+	vm := newVM(c)
 	ds.VerifMarkUnpatched.Store(true)
 	defer ds.VerifMarkUnpatched.Store(false)
 	var err error
@@ -70,7 +87,7 @@ func checkCase(c Case, s *rt.Section) (*rt.Failure, *bcverify.Stats, bool) {
 		// trip the dispatch loop's stack handling on the path that actually runs (small budget, fresh VM,
 		// jump sentinel off)
 		ds.VerifMarkUnpatched.Store(false)
-		vm2 := c.Cfg.NewVM()
+		vm2 := newVM(c)
 		vm2.Config.OpCountLimit = 3000
 		vm2.Config.CallbackSt = func(string, string, *ds.VMValue, *ds.VMValue, string, string) {}
 		ds.VerifMeterReset(2_000_000)
@@ -131,6 +148,13 @@ func TestProp(t *testing.T) {
 		if rapid.IntRange(0, 2).Draw(t, "withParseLimit") == 0 {
 			c.Cfg.ParseLimit = uint64(rapid.SampledFrom([]int{150, 300, 500, 800, 1200, 1600, 2000, 2600, 3500, 5000, 8000, 20000}).Draw(t, "parseLimit"))
 		}
+		// one input in five is compiled on a VM with one or two custom dice syntaxes registered
+		if rapid.IntRange(0, 4).Draw(t, "withCustom") == 0 {
+			n := rapid.IntRange(1, 2).Draw(t, "nCustom")
+			for i := 0; i < n; i++ {
+				c.Custom = append(c.Custom, rapid.IntRange(1, len(customPatterns)).Draw(t, "customPat"))
+			}
+		}
 		o := gen.DefaultOpts()
 		o.Dice, o.CoC, o.WoD, o.Fate, o.DC = true, c.Cfg.CoC, c.Cfg.WoD, c.Cfg.Fate, c.Cfg.DC
 		o.MaxStmts, o.MaxDepth = 6, 4
@@ -170,6 +194,9 @@ func TestProp(t *testing.T) {
 		}
 		s.Eval()
 		s.Class("src:" + c.Kind)
+		if len(c.Custom) > 0 {
+			s.Class("custom-dice-registered")
+		}
 		s.Crumb(c)
 		f, st, accepted := checkCase(c, s)
 		if !accepted && f == nil {
